@@ -1,6 +1,8 @@
 package server
 
 import (
+	"sync/atomic"
+
 	"github.com/valinurovam/garagemq/amqp"
 	"github.com/valinurovam/garagemq/consumer"
 	"github.com/valinurovam/garagemq/qos"
@@ -63,9 +65,10 @@ func (channel *Channel) basicPublish(method *amqp.BasicPublish) (err *amqp.Error
 	channel.currentMessage = amqp.NewMessage(method)
 	if channel.confirmMode {
 		channel.currentMessage.ConfirmMeta = &amqp.ConfirmMeta{
-			ChanID:      channel.id,
-			ConnID:      channel.conn.id,
-			DeliveryTag: channel.nextConfirmDeliveryTag(),
+			ChanID:       channel.id,
+			ConnID:       channel.conn.id,
+			ChanInstance: atomic.LoadUint64(&channel.instance),
+			DeliveryTag:  channel.nextConfirmDeliveryTag(),
 		}
 	}
 	return nil
